@@ -398,7 +398,16 @@ func (c *Chain) ProduceBlock(txs []TxSpec, dt int64, absent map[string]bool) *Bl
 		tx := &txs[i]
 		if tx.Raw == nil {
 			tx.Raw = c.signTx(c.TxConfig, tx.Signer, seqOff[tx.Signer.Name], tx.Msgs, tx.Fee)
-			seqOff[tx.Signer.Name]++
+			// baseapp validates the messages before the ante handler: such a transaction consumes no sequence number
+			basicOK := true
+			for _, m := range tx.Msgs {
+				if vb, ok := m.(interface{ ValidateBasic() error }); ok && vb.ValidateBasic() != nil {
+					basicOK = false
+				}
+			}
+			if basicOK {
+				seqOff[tx.Signer.Name]++
+			}
 		}
 		txBytes = append(txBytes, tx.Raw)
 	}
